@@ -106,6 +106,8 @@ def run_case(ctx, Model, case):
         else:
             start = dict(case['offset_source'])
     check = case['check'] if case.get('check') is not None else ['A', 'B']
+    if 'X' in check:
+        start['X'] = 1.0
     eff_script, eff_before, eff_after = scripted.effective_faults(case)
     want = scripted.ref_solve_t(eff_script, start, check, min_iter=case['min_iter'], max_iter=case['max_iter'],
                                 tol=case.get('solver_tol', case['tol']), scale=case['tol'], failures=case['failures'], errors=case['errors'], cfe=case['cfe'],
@@ -159,6 +161,11 @@ def run_shard(ctx):
                         if rng.random() < 0.12:
                             case['offset'] = rng.choice([-1, 1, 2, -2, -5, 5])
                             case['offset_source'] = {'A': rng.choice([0.0, 3.0]), 'B': rng.choice([0.0, 7.0, math.nan])}
+                            if rng.random() < 0.5:
+                                # the exogenous X is watched for convergence as well: it is read where it stands (period t) - an offset
+                                # copies endogenous values only - so what X holds in the *source* period is beside the point
+                                case['check'] = rng.choice([['A', 'X'], ['X', 'B', 'A'], ['X']])
+                                case['x_at_source'] = rng.choice(['nan', 'inf', 'finite'])
                         if rng.random() < 0.05:
                             case['start'] = {'A': rng.choice([math.nan, math.inf, 0.0]), 'B': 0.0}
                         ctx.evaluation(case, nontrivial=True, sample=case)
